@@ -123,8 +123,10 @@ CLAIMS.update({
         text="Theorems over the model for every atom list, haystack and configuration, with the matcher calls abstract: a negated atom matches iff its inner match fails and "
              "contributes nothing; a pattern matches iff all atoms match, its score is the sum and its indices the concatenation in atom order; the empty pattern gives Some(0); "
              "each atom overwrites ignore_case/normalize so the result is independent of the matcher's previous flags; match_list is a permutation of the matching inputs in "
-             "non-increasing score order with equal scores kept in input order. Tied to the code by correspondence on random patterns sharing one Matcher.",
-        note="Trusted: Lean kernel, axioms propext/Classical.choice/Quot.sound, harness+driver; the matcher calls are those of C01-C05 (same model). MultiPattern::score (columns) is the same fold (src/pattern.rs) and is exercised through the nucleo-level checks."),
+             "non-increasing score order with equal scores kept in input order; a multi-column pattern (MultiPattern::score, companion file C15_Multi) matches iff every column's pattern "
+             "matches that column's text - column k against text k whether or not other columns are empty - and its score is the sum of the columns' scores (C15_multi, "
+             "C15_multi_empty_column). Tied to the code by correspondence on random patterns sharing one Matcher, and on MultiPatterns of 1-3 columns in which every subset of the columns has a pattern.",
+        note="Trusted: Lean kernel, axioms propext/Classical.choice/Quot.sound, harness+driver; the matcher calls are those of C01-C05 (same model). MultiPattern::score is modelled (multiEval) and compared on the N lines; the worker's use of it is covered by the nucleo-level checks."),
     "C08": dict(
         technique="Lean 4 inductive invariant over all interleavings of a small-step model at atomic-operation granularity + replay of real seeded schedules on the model",
         text="Theorems over every number of threads, every program of push/extend(honest or lying)/get/count/snapshot and every schedule (list of thread ids, one atomic "
@@ -206,7 +208,8 @@ CLAIMS.update({
         text="Theorems (every lock outcome, counter value and background-run effect): restart(true) empties the snapshot and points it at the new stream immediately; "
              "restart(false) leaves it untouched; the new stream is referenced by no old injector, worker or snapshot handle; while the matcher is Cleared a finishing run of the old "
              "stream is never copied into the snapshot (guard lemma) and the next run works on the new stream; a snapshot update always takes the worker's stream handle together with "
-             "its matches. Old injectors keep working without any effect: checked on the real code (oldpush/oldextend events), where every match's item must belong to the snapshot's stream.",
+             "its matches. Old injectors keep working without any effect: checked on the real code (oldpush/oldextend events), where every match's item must belong to the snapshot's stream; "
+             "every snapshot dump also probes get_item(0..40): after restart(true) nothing may be readable by index, and whatever a snapshot reaches belongs to one stream and never to one abandoned by a clearing restart.",
         note=NU_NOTE),
     "C13": dict(
         technique="Lean 4: decided lost-wake-up witness + theorem that a tick reporting 'running' leaves the flag armed; replay with the run parked at run.end",
